@@ -6,10 +6,10 @@ CONSTANTS
   MaxN = 4
   MaxUnits = 2
   MaxEdges = 3
-  MaxEdgesBig = 2
-  Salt = 0
-  EmitMod = 7
-  CheckSplit = FALSE
-  KindN = 2
+  MaxEdgesBig = 1
+  Salt = 1
+  EmitMod = 3
+  CheckSplit = TRUE
+  KindN = 3
   FewSubsets = FALSE
-  RootN = 2
+  RootN = 3
